@@ -1893,3 +1893,342 @@ theorem keepAll : ∀ n, KeepAll n
 
 end Keep
 end Ruschm.Xform
+
+/-! ## from tail position in the data to tail position in the transformed expressions -/
+
+namespace Ruschm.Xform
+open Keep Macro
+
+theorem XM.pure_run {α} (a : α) (s : SynEnv) : (pure a : XM α) s = (.ok a, s) := rfl
+
+theorem elems_of_isList {d : Datum} {es : List Datum} (h : IsList d es) : d.elems = es := by
+  simp only [Datum.elems, IsList] at *; rw [h]
+
+theorem isList_cons_inv {d : Datum} {x : Datum} {xs : List Datum} (h : IsList d (x :: xs)) :
+    ∃ dd l, d = .pair x dd l ∧ IsList dd xs := by
+  cases d with
+  | pair a dd l =>
+    simp only [IsList, Datum.spine] at h
+    generalize hs : dd.spine = sp at h
+    obtain ⟨ys, t⟩ := sp
+    simp only [Prod.mk.injEq, List.cons.injEq] at h
+    obtain ⟨⟨rfl, rfl⟩, rfl⟩ := h
+    exact ⟨dd, l, rfl, hs⟩
+  | _ => simp [IsList, Datum.spine] at h
+
+theorem isSym_inv {s : String} {d : Datum} (h : isSym s d = true) : ∃ l, d = .sym s l := by
+  cases d <;> simp [isSym] at h
+  exact ⟨_, by rw [h]⟩
+
+theorem toExpr_ok_inv {n d env e env'} (h : toExpr n d env = (.ok e, env')) :
+    ∃ m, n = m + 1 ∧ toStatement m d env = (.ok (.expr e), env') := by
+  cases n with
+  | zero => rw [toExpr] at h; cases h
+  | succ m =>
+    refine ⟨m, rfl, ?_⟩
+    rw [toExpr] at h
+    obtain ⟨s, env₁, h₁, h₂⟩ := bind_ok h
+    cases s <;> first | (cases h₂; exact h₁) | cases h₂
+
+/-- `(if t c [a])` -/
+theorem toStatement_if_inv {n d i t c rest env e env'} (hd : IsList d (i :: t :: c :: rest)) (hi : isSym "if" i = true)
+    (h : toStatement n d env = (.ok (.expr e), env')) :
+    ∃ m te ce alt l, n = m + 1 ∧ toExpr m t env = (.ok te, env) ∧ toExpr m c env = (.ok ce, env) ∧ e = .cond te ce alt l ∧
+      (∀ a rest', rest = a :: rest' → ∃ ae, alt = some ae ∧ toExpr m a env = (.ok ae, env)) := by
+  obtain ⟨dd, l, rfl, hdd⟩ := isList_cons_inv hd
+  obtain ⟨dd', l', rfl, hdd'⟩ := isList_cons_inv hdd
+  obtain ⟨li, rfl⟩ := isSym_inv hi
+  cases n with
+  | zero => rw [toStatement] at h; cases h
+  | succ m =>
+    refine ⟨m, ?_⟩
+    rw [toStatement] at h
+    simp (config := {decide := true}) only [bind_run, lift, Macro.popProper, if_true, if_false, Datum.loc,
+      elems_of_isList hdd] at h
+    simp only [List.head?_cons, List.drop_succ_cons, List.drop_zero, need, XM.pure_run] at h
+    generalize ht : toExpr m t env = x at h
+    obtain ⟨r, s₁⟩ := x
+    cases r with
+    | error er => cases h
+    | ok te =>
+      have := ((keepAll m).expr t).keep env te s₁ ht trivial
+      subst this
+      simp only at h
+      generalize hc : toExpr m c s₁ = y at h
+      obtain ⟨r, s₂⟩ := y
+      cases r with
+      | error er => cases h
+      | ok ce =>
+        have := ((keepAll m).expr c).keep s₁ ce s₂ hc trivial
+        subst this
+        simp only at h
+        cases rest with
+        | nil =>
+          simp only [List.head?_nil, bind_run, XM.pure_run] at h
+          simp only [Prod.mk.injEq, Except.ok.injEq, Statement.expr.injEq] at h
+          exact ⟨te, ce, none, l, rfl, rfl, rfl, h.1.symm, fun a r' h' => by cases h'⟩
+        | cons a rest' =>
+          simp only [List.head?_cons, bind_run, XM.pure_run] at h
+          generalize ha : toExpr m a s₂ = z at h
+          obtain ⟨r, s₃⟩ := z
+          cases r with
+          | error er => cases h
+          | ok ae =>
+            have := ((keepAll m).expr a).keep s₂ ae s₃ ha trivial
+            subst this
+            simp only [Prod.mk.injEq, Except.ok.injEq, Statement.expr.injEq] at h
+            exact ⟨te, ce, some ae, l, rfl, rfl, rfl, h.1.symm, fun a' r' h' => by
+              cases h'; exact ⟨ae, rfl, ha⟩⟩
+
+
+/-- the last form of a procedure body is an expression, transformed in the body's environment, and
+it is the last of the body's expressions -/
+theorem toBody_last_inv {last : Datum} {env : SynEnv} : ∀ (pre : List Datum) {m defs0 exprs0 D E env'},
+    toBody m (pre ++ [last]) defs0 exprs0 env = (.ok (D, E), env') →
+    ∃ elast Epre m', m' < m ∧ E = Epre ++ [elast] ∧ toStatement m' last env = (.ok (.expr elast), env)
+  | [], m, defs0, exprs0, D, E, env', h => by
+    cases m with
+    | zero => rw [toBody] at h; cases h
+    | succ m =>
+      simp only [List.nil_append] at h
+      rw [toBody] at h
+      obtain ⟨s, env₁, h₁, h₂⟩ := bind_ok h
+      cases s with
+      | expr e =>
+        have := ((keepAll m).stmt last).keep env _ env₁ h₁ trivial
+        subst this
+        simp only at h₂
+        cases m with
+        | zero => rw [toBody] at h₂; cases h₂
+        | succ m' =>
+          rw [toBody] at h₂
+          simp only [List.isEmpty_cons, Bool.false_eq_true, if_false] at h₂
+          cases h₂
+          exact ⟨e, exprs0.reverse, m' + 1, by omega, by simp, h₁⟩
+      | definition df =>
+        simp only at h₂
+        split at h₂
+        · rename_i hemp
+          cases m with
+          | zero => rw [toBody] at h₂; cases h₂
+          | succ m' =>
+            rw [toBody] at h₂
+            simp only [hemp, if_true] at h₂
+            cases h₂
+        · obtain ⟨_, _, _⟩ := df; cases h₂
+      | _ => cases h₂
+  | d :: pre, m, defs0, exprs0, D, E, env', h => by
+    cases m with
+    | zero => rw [toBody] at h; cases h
+    | succ m =>
+      simp only [List.cons_append] at h
+      rw [toBody] at h
+      obtain ⟨s, env₁, h₁, h₂⟩ := bind_ok h
+      cases s with
+      | expr e =>
+        have := ((keepAll m).stmt d).keep env _ env₁ h₁ trivial
+        subst this
+        simp only at h₂
+        obtain ⟨elast, Epre, m', hm', hE, hl⟩ := toBody_last_inv pre h₂
+        exact ⟨elast, Epre, m', by omega, hE, hl⟩
+      | definition df =>
+        have := ((keepAll m).stmt d).keep env _ env₁ h₁ trivial
+        subst this
+        simp only at h₂
+        split at h₂
+        · obtain ⟨elast, Epre, m', hm', hE, hl⟩ := toBody_last_inv pre h₂
+          exact ⟨elast, Epre, m', by omega, hE, hl⟩
+        · obtain ⟨_, _, _⟩ := df; cases h₂
+      | _ => cases h₂
+
+
+theorem toCall_ok_inv {n f args loc env e env'} (h : toCall n f args loc env = (.ok e, env')) :
+    ∃ m fe as, n = m + 1 ∧ toExpr m f env = (.ok fe, env) ∧ e = .call fe as loc := by
+  cases n with
+  | zero => rw [toCall] at h; cases h
+  | succ m =>
+    rw [toCall] at h
+    obtain ⟨fe, env₁, h₁, h₂⟩ := bind_ok h
+    have := ((keepAll m).expr f).keep env fe env₁ h₁ trivial
+    subst this
+    obtain ⟨as, env₂, _, h₃⟩ := bind_ok h₂
+    cases h₃
+    exact ⟨m, fe, as, rfl, h₁, rfl⟩
+
+/-- `(lambda formals body… last)` -/
+theorem toStatement_lambda_inv {n lam k formals pre last env e env'}
+    (hl : IsList lam (k :: formals :: (pre ++ [last]))) (hk : isSym "lambda" k = true)
+    (h : toStatement n lam env = (.ok (.expr e), env')) :
+    ∃ F defs Epre elast loc m, e = .lambda (.mk F defs (Epre ++ [elast])) loc ∧ m < n ∧
+      toStatement m last ([] :: env) = (.ok (.expr elast), [] :: env) := by
+  obtain ⟨dd, l, rfl, hdd⟩ := isList_cons_inv hl
+  obtain ⟨dd', l', rfl, hdd'⟩ := isList_cons_inv hdd
+  obtain ⟨lk, rfl⟩ := isSym_inv hk
+  cases n with
+  | zero => rw [toStatement] at h; cases h
+  | succ m =>
+    rw [toStatement] at h
+    simp (config := {decide := true}) only [bind_run, lift, Macro.popProper, if_true, if_false, Datum.loc,
+      elems_of_isList hdd] at h
+    generalize hlam : toLambda m (formals :: (pre ++ [last])) env = x at h
+    obtain ⟨r, s₁⟩ := x
+    cases r with
+    | error er => cases h
+    | ok lamv =>
+      simp only [XM.pure_run, Prod.mk.injEq, Except.ok.injEq, Statement.expr.injEq] at h
+      cases m with
+      | zero => rw [toLambda] at hlam; cases hlam
+      | succ m' =>
+        rw [toLambda] at hlam
+        simp only [List.head?_cons, List.drop_succ_cons, List.drop_zero, need] at hlam
+        obtain ⟨_, e₀, h₀, hlam₁⟩ := bind_ok hlam
+        cases h₀
+        clear hlam
+        obtain ⟨F, env₁, hF, hlam₂⟩ := bind_ok hlam₁
+        clear hlam₁
+        have := (KeepIf.toFormals (Q' := Tt) formals).keep _ _ _ hF trivial
+        subst this
+        obtain ⟨bx, env₂, hb, hlam₃⟩ := bind_ok hlam₂
+        cases hlam₃
+        obtain ⟨defs, body⟩ := bx
+        -- the body runs in a child scope
+        simp only [inChild] at hb
+        generalize hbody : toBody m' (pre ++ [last]) [] [] ([] :: env₁) = y at hb
+        obtain ⟨rb, sb⟩ := y
+        have hrb : rb = .ok (defs, body) := by
+          cases sb <;> simp only [Prod.mk.injEq] at hb <;> exact hb.1
+        subst hrb
+        obtain ⟨elast, Epre, m'', hm'', hE, hlast⟩ := toBody_last_inv pre hbody
+        exact ⟨F, defs, Epre, elast, l, m'', by rw [← h.1, hE], by omega, hlast⟩
+
+
+theorem size_withLoc (d : Datum) (l : Loc) : (d.withLoc l).size = d.size := by
+  cases d <;> simp [Datum.withLoc, Datum.size]
+
+/-- a use of a bundled derived form: one expansion step, then the expansion is transformed -/
+theorem toStatement_macro_inv {n kw l₁ rest l env rules s env'} (hkw : kw ∈ C05.keywords)
+    (henv : env.get? kw = some rules)
+    (h : toStatement n (.pair (.sym kw l₁) rest l) env = (.ok s, env')) :
+    ∃ m expanded, n = m + 1 ∧
+      Macro.transform (Macro.matchFuel (.pair (.sym kw l₁) rest l) + m) rules (rest.withLoc l) = .ok expanded ∧
+      toStatement m expanded env = (.ok s, env') := by
+  cases n with
+  | zero => rw [toStatement] at h; cases h
+  | succ m =>
+    refine ⟨m, ?_⟩
+    have hne : kw ≠ "define" ∧ kw ≠ "define-library" ∧ kw ≠ "lambda" ∧ kw ≠ "if" ∧ kw ≠ "import" ∧
+        kw ≠ "quote" ∧ kw ≠ "set!" ∧ kw ≠ "define-syntax" := by
+      simp only [C05.keywords, List.mem_cons, List.mem_nil_iff, or_false] at hkw
+      rcases hkw with rfl | rfl | rfl | rfl | rfl | rfl | rfl | rfl | rfl <;> decide
+    obtain ⟨h1, h2, h3, h4, h5, h6, h7, h8⟩ := hne
+    rw [toStatement] at h
+    cases rest with
+    | pair x y lr =>
+      simp only [bind_run, lift, Macro.popProper, h1, h2, h3, h4, h5, h6, h7, h8, if_false, getEnv, henv] at h
+      generalize ht : Macro.transform _ rules _ = t at h
+      cases t with
+      | error er => cases h
+      | ok expanded => exact ⟨expanded, rfl, ht, h⟩
+    | nil lr =>
+      simp only [bind_run, lift, Macro.popProper, h1, h2, h3, h4, h5, h6, h7, h8, if_false, getEnv, henv] at h
+      generalize ht : Macro.transform _ rules _ = t at h
+      cases t with
+      | error er => cases h
+      | ok expanded => exact ⟨expanded, rfl, ht, h⟩
+    | prim p lr => simp only [bind_run, lift, Macro.popProper] at h; cases h
+    | sym p lr => simp only [bind_run, lift, Macro.popProper] at h; cases h
+    | vec p lr => simp only [bind_run, lift, Macro.popProper] at h; cases h
+
+/-- the syntax environment resolves the nine bundled keywords to the bundled rules -/
+def StdEnv (env : SynEnv) : Prop := ∀ kw ∈ C05.keywords, env.get? kw = Macro.grammarRules kw
+
+theorem StdEnv.child {env : SynEnv} (h : StdEnv env) : StdEnv ([] :: env) := fun kw hkw => by
+  rw [← h kw hkw]; rfl
+
+/-- FROM DATA TO EXPRESSIONS: if `sub` is in tail position of the datum `d` (`DTail`) and `d` transforms,
+in an environment with the bundled forms, to the expression `e`, then `sub` transforms (in such an
+environment, left unchanged) to an expression that is in tail position of `e` (`InTail`) -/
+theorem dtail_intail {sub d : Datum} (h : DTail sub d) : ∀ {n env e env'}, StdEnv env →
+    toStatement n d env = (.ok (.expr e), env') →
+    ∃ m envs esub, StdEnv envs ∧ toStatement m sub envs = (.ok (.expr esub), envs) ∧ Eval.InTail esub e := by
+  induction h with
+  | here =>
+    intro n env e env' hstd hx
+    have := ((keepAll n).stmt _).keep env _ env' hx trivial
+    subst this
+    exact ⟨n, _, e, hstd, hx, .here e⟩
+  | if_then hd hi _ ih =>
+    intro n env e env' hstd hx
+    obtain ⟨m, te, ce, alt, l, rfl, _, hc, rfl, _⟩ := toStatement_if_inv hd hi hx
+    obtain ⟨m', rfl, hc'⟩ := toExpr_ok_inv hc
+    obtain ⟨k, envs, esub, hs, hsub, hin⟩ := ih hstd hc'
+    exact ⟨k, envs, esub, hs, hsub, .cond_then hin⟩
+  | if_else hd hi _ ih =>
+    intro n env e env' hstd hx
+    obtain ⟨m, te, ce, alt, l, rfl, _, _, rfl, ha⟩ := toStatement_if_inv hd hi hx
+    obtain ⟨ae, rfl, ha'⟩ := ha _ _ rfl
+    obtain ⟨m', rfl, ha''⟩ := toExpr_ok_inv ha'
+    obtain ⟨k, envs, esub, hs, hsub, hin⟩ := ih hstd ha''
+    exact ⟨k, envs, esub, hs, hsub, .cond_else hin⟩
+  | @lam_call d lam args k formals pre last hd hl hk _ ih =>
+    intro n env e env' hstd hx
+    obtain ⟨dd, l, rfl, hdd⟩ := isList_cons_inv hd
+    -- `lam` is a list, not a symbol: the form is a procedure call
+    obtain ⟨ldd, ll, rfl, _⟩ := isList_cons_inv hl
+    cases n with
+    | zero => rw [toStatement] at hx; cases hx
+    | succ n =>
+      rw [toStatement] at hx
+      have hcall : toCall n (.pair k ldd ll) dd.elems l env = (.ok e, env') ∨ False := by
+        cases dd with
+        | pair x y lr =>
+          simp only [bind_run, lift, Macro.popProper, Datum.loc] at hx
+          generalize hc : toCall n _ _ _ env = t at hx
+          obtain ⟨r, s₁⟩ := t
+          cases r with
+          | error er => cases hx
+          | ok c => simp only [XM.pure_run, Prod.mk.injEq, Except.ok.injEq, Statement.expr.injEq] at hx
+                    obtain ⟨rfl, rfl⟩ := hx; exact .inl rfl
+        | nil lr =>
+          simp only [bind_run, lift, Macro.popProper, Datum.loc] at hx
+          generalize hc : toCall n _ _ _ env = t at hx
+          obtain ⟨r, s₁⟩ := t
+          cases r with
+          | error er => cases hx
+          | ok c => simp only [XM.pure_run, Prod.mk.injEq, Except.ok.injEq, Statement.expr.injEq] at hx
+                    obtain ⟨rfl, rfl⟩ := hx; exact .inl rfl
+        | prim p lr => simp [IsList, Datum.spine] at hdd
+        | sym p lr => simp [IsList, Datum.spine] at hdd
+        | vec p lr => simp [IsList, Datum.spine] at hdd
+      rcases hcall with hcall | hf
+      · obtain ⟨m, fe, as, rfl, hfe, rfl⟩ := toCall_ok_inv hcall
+        obtain ⟨m', rfl, hfe'⟩ := toExpr_ok_inv hfe
+        obtain ⟨F, defs, Epre, elast, loc, j, rfl, _, hlast⟩ := toStatement_lambda_inv hl hk hfe'
+        obtain ⟨k', envs, esub, hs, hsub, hin⟩ := ih hstd.child hlast
+        exact ⟨k', envs, esub, hs, hsub, .lam_call hin⟩
+      · exact hf.elim
+  | @expand kw l₁ rest l d' hkw hxp _ ih =>
+    intro n env e env' hstd hx
+    have hget := hstd kw hkw
+    cases hr : Macro.grammarRules kw with
+    | none =>
+      have := hxp (Macro.matchFuel (rest.withLoc l)) (Nat.le_refl _)
+      simp only [Macro.expand1, hr] at this
+      cases this
+    | some rules =>
+      rw [hr] at hget
+      obtain ⟨m, expanded, rfl, ht, hx'⟩ := toStatement_macro_inv hkw hget hx
+      have hfuel : Macro.matchFuel (rest.withLoc l) ≤ Macro.matchFuel (.pair (.sym kw l₁) rest l) + m := by
+        simp only [Macro.matchFuel, size_withLoc, Datum.size]; omega
+      have := hxp _ hfuel
+      simp only [Macro.expand1, hr] at this
+      rw [ht] at this
+      cases this
+      exact ih hstd hx'
+
+set_option maxRecDepth 100000 in
+theorem stdEnv_default : StdEnv [[], Interp.grammarScope] := by
+  intro kw hkw
+  simp only [C05.keywords, List.mem_cons, List.mem_nil_iff, or_false] at hkw
+  rcases hkw with rfl | rfl | rfl | rfl | rfl | rfl | rfl | rfl | rfl <;> rfl
+end Ruschm.Xform
